@@ -258,6 +258,25 @@ var keyPool = []string{"a", "b", "c", "d", "service.name", "host.name", "k1", "k
 var strPool = []string{"", "x", "y", "1", "svc", "a,b", "a=b", "%41", "é", " padded ", "\xff"}
 var schemaPool = []string{"", "", "https://a", "https://a", "https://b", "https://opentelemetry.io/schemas/1.26.0"}
 
+// nearEqual: URLs that differ from a pool URL only by letter case, a trailing slash, percent-encoding,
+// Unicode case folding / normalisation, surrounding space -- all of them DIFFERENT schema URLs.
+var nearEqual = map[string][]string{
+	"https://a": {"https://A", "HTTPS://a", "https://a/", "https://%61", "https://a ", " https://a", "https://\uff41", "https://a\x00", "https://a#"},
+	"https://b": {"https://B", "https://b/", "https://%62"},
+	"https://opentelemetry.io/schemas/1.26.0": {"https://opentelemetry.io/Schemas/1.26.0", "https://OpenTelemetry.io/schemas/1.26.0",
+		"https://opentelemetry.io/schemas/1.26.0/", "https://opentelemetry.io/schemas/1%2E26.0", "https://opentelemetry.\u0131o/schemas/1.26.0",
+		"https://opentelemetry.io/schemas/1.26.00", "http://opentelemetry.io/schemas/1.26.0"},
+}
+
+// genSchema: a pool URL, one time in four replaced by a near-equal variant of it.
+func genSchema(r *vgen.Rand) string {
+	u := vgen.Pick(r, schemaPool)
+	if vs := nearEqual[u]; len(vs) > 0 && r.Chance(1, 4) {
+		return vgen.Pick(r, vs)
+	}
+	return u
+}
+
 const (
 	nanQ    = 0x7FF8000000000001
 	negZero = 0x8000000000000000
@@ -356,10 +375,10 @@ func genRes(r *vgen.Rand) rdesc {
 	case 1:
 		return rdesc{kind: 1}
 	case 2, 3:
-		return rdesc{kind: 2, schema: vgen.Pick(r, schemaPool), input: genDupAttrs(r)}
+		return rdesc{kind: 2, schema: genSchema(r), input: genDupAttrs(r)}
 	}
 	n := vgen.Pick(r, []int{0, 1, 1, 2, 3, 3, 4, 5, 6, 8, 10, 11, 12})
-	return rdesc{kind: 2, schema: vgen.Pick(r, schemaPool), input: genAttrs(r, n)}
+	return rdesc{kind: 2, schema: genSchema(r), input: genAttrs(r, n)}
 }
 
 func mergeErr(err error) uint64 {
@@ -830,6 +849,19 @@ func main() {
 	for _, p := range [][2]rdesc{{A, B}, {B, A}, {A, A}, {A, E}, {E, A}, {A, NIL}, {NIL, A}, {NIL, NIL}, {E, E}, {NIL, E}, {A, S}, {S, A}, {S, S}, {U, B}, {B, U}, {U, S}, {U, U}, {U, E}, {E, U}} {
 		addMerge2(p[0], p[1], "corpus")
 	}
+	for _, v := range nearEqual["https://a"] { // differ only by case / slash / escaping: still a conflict, attributes kept
+		Av := A
+		Av.schema = v
+		addMerge2(A, Av, "corpus-near-equal-url")
+		addMerge2(Av, A, "corpus-near-equal-url")
+	}
+	{
+		Av, Bv := A, B
+		Av.schema, Bv.schema = "https://opentelemetry.io/schemas/1.26.0", "https://opentelemetry.io/Schemas/1.26.0"
+		addMerge2(Av, Bv, "corpus-near-equal-url")
+		addMerge3(Av, Bv, S)
+		addMerge3(S, Av, Bv)
+	}
 	for _, d := range []rdesc{A, B, E, NIL, S, U} {
 		addBuild(d)
 	}
@@ -861,7 +893,7 @@ func main() {
 			kind = "unit-left"
 		case 3: // heavy overlap
 			if a.kind == 2 && len(a.input) > 0 {
-				b = rdesc{kind: 2, schema: vgen.Pick(r, schemaPool), input: append(genAttrs(r, 2), a.input[:r.Intn(len(a.input))+1]...)}
+				b = rdesc{kind: 2, schema: genSchema(r), input: append(genAttrs(r, 2), a.input[:r.Intn(len(a.input))+1]...)}
 				for j := range b.input {
 					if r.Bool() {
 						b.input[j].v = genVal(r)
@@ -898,7 +930,7 @@ func main() {
 				fin[j].v = genVal(r)
 				kind = "revalued"
 			}
-			b = rdesc{kind: 2, schema: vgen.Pick(r, schemaPool), input: fin}
+			b = rdesc{kind: 2, schema: genSchema(r), input: fin}
 		}
 		addEqual(a, b, kind)
 	}
@@ -907,7 +939,7 @@ func main() {
 	nDet := o.Count(300, 6000)
 	for i := 0; i < nDet; i++ {
 		n := vgen.Pick(r, []int{0, 1, 2, 2, 3, 3, 4, 5, 6})
-		s0 := vgen.Pick(r, []string{"", "", "https://a", "https://b"})
+		s0 := vgen.Pick(r, []string{"", "", "https://a", "https://b", "https://A", "https://a/"})
 		var ds []ddesc
 		for j := 0; j < n; j++ {
 			d := ddesc{res: genRes(r)}
@@ -920,7 +952,7 @@ func main() {
 				d.err = 2
 			}
 			if r.Chance(1, 2) && d.res.kind == 2 { // most detectors agree on the schema URL, so that not every run ends in a conflict
-				d.res.schema = vgen.Pick(r, []string{"", "https://a"})
+				d.res.schema = vgen.Pick(r, []string{"", "https://a", "https://a", "https://a", "https://A", "https://a/", "https://%61"})
 			}
 			if !d.absent && d.err == 0 && d.res.kind == 2 && d.res.schema == "" && r.Bool() {
 				d.viaOpt = true
